@@ -27,7 +27,7 @@ BASE = {
         "open": 7, "add": 8, "close": 5, "drop": 2.5, "reconnect": 3, "ping": 0.7,
         "adv_small": 4, "adv_min": 2, "adv_sweep": 1.5, "adv_phase": 0.7, "adv_long": 0.4,
         "restart": 0.8, "kill": 0.3, "bad": 0.8, "stall": 0.2, "jump": 0.0, "dbfault": 0.0,
-        "persona": 1.5, "bulk": 0.0, "third": 0.5, "resend": 1.0, "split": 0.2,
+        "persona": 1.5, "bulk": 0.0, "third": 0.5, "resend": 1.0, "split": 0.2, "idle_sub": 0.2,
     },
 }
 
@@ -65,10 +65,10 @@ PROFILES = {
     "C08": profile(nsides=(2, 2), names=3,
                    w={"close": 12, "claim": 8, "open": 9, "release": 5, "add": 6, "reconnect": 6, "resend": 5,
                       "drop": 4, "persona": 3}),
-    "C09": profile(usage_p=0.6, w={"persona": 3, "adv_sweep": 2, "bad": 1.5}),
+    "C09": profile(usage_p=0.6, w={"persona": 3, "adv_sweep": 2, "bad": 1.5, "idle_sub": 1.0}),
     "C12": profile(autoping_p=0.5, steps=(12, 50), names=3,
                    w={"adv_phase": 5, "adv_sweep": 5, "adv_min": 4, "adv_long": 1.5, "stall": 0.8, "add": 8,
-                      "open": 8, "restart": 1.0, "kill": 0.4, "drop": 3, "jump": 0.3, "close": 2, "release": 2, "split": 1.0}),
+                      "open": 8, "restart": 1.0, "kill": 0.4, "drop": 3, "jump": 0.3, "close": 2, "release": 2, "split": 1.0, "idle_sub": 1.0}),
     "C13": profile(quiesce_p=1.0, steps=(8, 40), jumps=[0.5, 30.0, 700.0, 3600.0], share_ids_p=0.08,
                    w={"dbfault": 0.8, "jump": 0.3, "adv_sweep": 2.5, "adv_long": 1.0, "third": 1.5, "reconnect": 4, "resend": 2,
                       "drop": 4, "close": 6}),
@@ -81,7 +81,7 @@ PROFILES = {
                    w={"bad": 14, "connect_unbound": 2, "ping": 2, "third": 1}),
     "C10": profile(steps=(6, 22), usage_p=0.6, nsides=(2, 3), names=3, autoping_p=0.1, hold_p=0.0,
                    w={"claim": 9, "release": 7, "close": 8, "open": 7, "add": 5, "adv_sweep": 1.5, "adv_long": 1.0,
-                      "restart": 0.3, "kill": 0.3, "persona": 2.5, "third": 0.8, "bad": 0.2, "stall": 0}),
+                      "restart": 0.3, "kill": 0.3, "persona": 2.5, "third": 0.8, "bad": 0.2, "stall": 0, "idle_sub": 1.5}),
     "C11": profile(napps=(1, 2), names=2, literal_ids=1, autoping_p=0.2,
                    w={"restart": 2.5, "kill": 0.0, "adv_sweep": 3, "open": 9, "add": 9, "connect": 9, "reconnect": 5,
                       "adv_min": 3, "jump": 0, "dbfault": 0, "split": 2.0}),
@@ -458,6 +458,31 @@ class Gen(object):
         out += self.a_add(b)
         return out
 
+    def a_idle_sub(self):
+        """a client that stays subscribed but silent for longer than the expiry time
+        (a sender waiting for its peer), then somebody does something"""
+        r = self.rng
+        app = r.choice(self.apps)
+        a, out = self.a_connect(app=app, side=r.choice(self.sides))
+        if r.random() < 0.6:
+            out += self.a_claim(a)
+            out += self.a_open(a, {"ref": "claimed", "c": a.id})
+        else:
+            out += self.a_open(a)
+        if r.random() < 0.7:
+            out += self.a_add(a)
+        out.append({"op": "advance", "dt": round(r.uniform(680, 1500), 3)})
+        x = r.random()
+        if x < 0.4:
+            out += self.a_add(a)
+        elif x < 0.7:
+            b, o2 = self.a_connect(app=app, side=r.choice(self.sides))
+            out += o2
+            out += self.a_open(b, a.opened)
+        else:
+            out += self.a_close(a)
+        return out
+
     def a_third(self):
         """a further side arrives at something two sides share"""
         cands = [c for c in self.bound() if c.opened is not None or c.claimed is not None]
@@ -540,6 +565,7 @@ class Gen(object):
             acts.append(("persona", w["persona"]))
             acts.append(("third", w["third"]))
             acts.append(("split", w.get("split", 0)))
+            acts.append(("idle_sub", w.get("idle_sub", 0)))
             dead = [c for c in self.conns.values() if not c.alive and c.app is not None]
             if dead:
                 acts.append(("reconnect", w["reconnect"]))
@@ -573,6 +599,8 @@ class Gen(object):
             return self.a_third()
         if a == "split":
             return self.a_split()
+        if a == "idle_sub":
+            return self.a_idle_sub()
         if a in ("reconnect", "resend"):
             dead = [c for c in self.conns.values() if not c.alive and c.app is not None]
             return self.a_reconnect(r.choice(dead), resend=(a == "resend"))
